@@ -2,6 +2,7 @@
    TLS/x509 are represented by their acceptance conditions (Cfg/TlsCfg.v: client_accepts, server_accepts). *)
 From Coq Require Import List NArith ZArith Bool.
 From SA Require Import Base.Tok Cfg.TlsCfg.
+From SA.Hs Require Import Parse Machine Grammar Admit_proofs Examples.
 From SA Require Gen.Shapes2.
 From Coq Require Import String.
 Import ListNotations.
@@ -57,6 +58,19 @@ Qed.
 Theorem c05_no_secret_no_cipher : forall c, secret_admits None c = true <-> c = None.
 Proof. intros [b|]; cbn; split; intros H; try discriminate; reflexivity. Qed.
 
+(* The same at the level of the session handshake (Hs/Machine.v, the model C06 proves admission for): on a carrier that is not already
+   encrypted a server that requires client certificates establishes TLS sessions only. A peer that skips StartTLS - and so cannot present
+   a certificate - is answered 403, for every octet string it may send, in every segmentation. *)
+Theorem c05_client_cert_needs_tls : forall tls c b v sec t rest,
+  c_secure c = false -> c_cert c = true -> c_reqcc c = true ->
+  server_session_with tls c b = Established v sec t rest -> sec = true /\ t = TechTls /\ tls = true.
+Proof. exact reqcc_needs_tls. Qed.
+Example c05_client_cert_needs_tls_nonvacuous :
+  server_run_with true with_cert_reqcc [announce_request; upgrade_request protocol_version true] =
+    Ok (mksobs [200; 101] (Established protocol_version true TechTls [])) /\
+  server_run with_cert_reqcc [announce_request; upgrade_request protocol_version false] = Ok (mksobs [200; 403] (Refused false)).
+Proof. split; [exact server_reqcc_starttls_ok | exact server_reqcc_plain_refused]. Qed.
+
 Example c05_nonvacuous : connect StartTlsSocket SGood false CNone false true = Session true
   /\ connect TlsSocket SWrongHost false CNone false false = ConnectErr.
 Proof. split; reflexivity. Qed.
@@ -68,3 +82,4 @@ Theorem c05_tls_manager_facts :
   Gen.Shapes2.http_server_tls_manager = "&ws.ServerConfig"%string /\ Gen.Shapes2.io_server_tls_manager = "&st.ServerConfig"%string.
 Proof. repeat split; reflexivity. Qed.
 Print Assumptions c05_tls_manager_facts.
+Print Assumptions c05_client_cert_needs_tls.
